@@ -319,6 +319,9 @@ def classify(case):
           f"files={case.get('files', 1)}"]
     if fork:
         cl.append("pv_job_with_fork")
+    if any(len(tr) != len(w["traces"][0]) for w in case["workflows"]
+           for tr in w["traces"]):
+        cl.append("varying_number_of_same_typed_calls")
     if any(set("[]*?") & set(n) for n in wfs):
         cl.append("workflow_name_with_glob_character")
     if any(t[1].endswith(" ") for w in case["workflows"]
@@ -355,6 +358,10 @@ def strategy():
         leaves = [k for k in range(1, n) if k not in parents]
         alts = draw(st.lists(st.sampled_from(leaves), max_size=2,
                              unique=True)) if leaves else []
+        # a leaf that some traces call several times in parallel (same
+        # type, same parent, same interval): branch counts
+        twin = draw(st.sampled_from(leaves)) if leaves and \
+            draw(st.integers(0, 3)) == 0 else None
         traces = []
         for _ in range(draw(st.integers(1, 6))):
             tr = [list(t) for t in tmpl]
@@ -363,6 +370,11 @@ def strategy():
                     # the alternative type differs by a suffix - in a third
                     # of the workflows only by trailing white space
                     tr[k][1] = tr[k][1] + suffix
+            if twin is not None:
+                for _ in range(draw(st.integers(0, 2))):
+                    c = list(tr[twin])
+                    c[2] = c[2] + 100 + len(tr)   # distinct sibling start,
+                    tr.append(c)                  # far from the others
             traces.append(tr)
         return {"name": name, "app": draw(st.sampled_from(
             ["app", "svc-a", "B", ""])), "traces": traces}
